@@ -273,6 +273,18 @@ func c19Ops() []c19Op {
 			}
 			return nil
 		}},
+		c19Op{name: "SetType(copy of the current type under another name, relationships with an inverse name)", do: func(y *c19Sys) error {
+			// the same fields, of the same kinds and cardinalities: every stored value stays
+			t := y.col.Type.Copy()
+			t.Name = "renamed"
+			for n, r := range t.Rels {
+				r.FromType, r.ToName, r.FromOne = "renamed", "back", !r.FromOne
+				t.Rels[n] = r
+			}
+			y.newT = &t
+			y.col.SetType(y.newT)
+			return nil
+		}},
 		c19Op{name: "SetType(type with as many fields under other names)", do: func(y *c19Sys) error {
 			// same NUMBER of fields as the collection has now, none of the names
 			n := len(y.m.fields)
@@ -514,7 +526,7 @@ func c19BFS(c *Ctx, eager bool) *mc.BFS {
 func init() {
 	Register(&Prop{
 		ID: "C19",
-		Rule: "Engine B: breadth-first search over ALL histories (depth <= 4 quick / 5 thorough) of 29 operations on a real SoftCollection whose type has been set: Add of 9 resources (same type, second id, duplicate id, narrower, wider, conflicting kind/cardinality for the same field name, attribute named like a relationship of the collection and vice versa, wrapped struct, empty id), Remove(1|2|9|\"\"), AddAttr(new|duplicate|invalid|case twin), AddRel(new|duplicate|case twin), SetType(same pointer|new type), Set on the original resources after they were added, reading everything; de-duplicated by deep snapshot. Two searches: in the first nothing is read between the operations of a history (reading is an operation), in the second everything is read after every step (reads cost no depth); after the last step Len, At(-1..Len), Resource(id), GetType and Get of every current field of every stored resource are compared with a list model (order, ids, well-typed values snapshotted at Add, zero for later fields). Every state beyond the initial one is non-trivial",
+		Rule: "Engine B: breadth-first search over ALL histories (depth <= 4 quick / 5 thorough) of 30 operations on a real SoftCollection whose type has been set: Add of 9 resources (same type, second id, duplicate id, narrower, wider, conflicting kind/cardinality for the same field name, attribute named like a relationship of the collection and vice versa, wrapped struct, empty id), Remove(1|2|9|\"\"), AddAttr(new|duplicate|invalid|case twin), AddRel(new|duplicate|case twin), SetType(same pointer|new type|renamed copy of the current type), Set on the original resources after they were added, reading everything; de-duplicated by deep snapshot. Two searches: in the first nothing is read between the operations of a history (reading is an operation), in the second everything is read after every step (reads cost no depth); after the last step Len, At(-1..Len), Resource(id), GetType and Get of every current field of every stored resource are compared with a list model (order, ids, well-typed values snapshotted at Add, zero for later fields). Every state beyond the initial one is non-trivial",
 		Assumptions: []string{"after SetType(new type) values of fields that keep name and kind are expected to be retained (natural reading; only the field set is stated)", "only later Set calls on the original are judged, not in-place mutation of its slices"},
 		Harnesses: []Harness{{Name: "C19/histories",
 			Custom: func(c *Ctx) {
